@@ -1460,6 +1460,10 @@ def poolloop(F, R):
                             if 'B' in tk and (('S' in tk) != (with_def is False)):
                                 ok = False; why = 'the sequence counter must advance exactly when the result does not carry the deferred bit (found %s with (r & DEFERRED) = %s)' % (tk, with_def)
                             if 'B' not in tk and 'P' not in tk: ok = False; why = 'after a dispatch the scan must restart from the beginning of the pool (found %s)' % tk
+                            # the scan stops at the caller's event limit: the dispatch just made still ends a sequence - events that an
+                            # action deferred during it must become eligible for the next call, exactly as when the scan goes on
+                            if 'B' not in tk and 'P' in tk and (with_def is None or ('S' in tk) != (with_def is False)):
+                                ok = False; why = 'the scan stops at the event limit after a dispatch without advancing the sequence counter (found %s, deferred-bit test on this path: %s): events deferred by an action stay ineligible for every later process_event_pool call until another event is submitted' % (tk, with_def)
             R.ob('C04.pool-loop', ok, {'func': f.q, 'paths': npaths})
             if not ok: R.find('C04.pool-loop', f, 'loop-shape', why)
         if f.n == 'try_process_impl' and f.cls in ('deferred_event', 'completion_event_occurrence'):
